@@ -2,6 +2,7 @@ import LinOp.C04.Proofs
 import LinOp.C04.ProofsSelect
 import LinOp.C04.ProofsCG
 import LinOp.C04.ProofsKronN2
+import LinOp.C04.ProofsBcast
 import LinOp.C04.Expected
 /-!
 C04 — `solve` returns `A⁻¹B` (resp. `L A⁻¹ B`) whichever algorithm the library selects.  Property theorems only.
@@ -440,6 +441,63 @@ theorem pivchol_preconditioner_spd {n k : Nat} (L : Matrix (Fin n) (Fin k) ℝ) 
     ((L * Lᵀ + diagonal d)⁻¹)ᵀ = (L * Lᵀ + diagonal d)⁻¹ ∧
     ∀ v : C08.Vec ℝ n, v ≠ 0 → 0 < C08.dot v (((L * Lᵀ + diagonal d)⁻¹).mulVec v) :=
   inv_spd _ (lowrank_plus_diag_spd L d hd).1 (lowrank_plus_diag_spd L d hd).2
+
+/-! ### Batch-broadcast right-hand sides (extension session 5): flat row-major batch buffers -/
+
+open LinOp.C01 (broadcastShape restrict) in
+/-- **solve_broadcast_refines**: an operator batch of shape `sA` (flat buffer of `prodL sA` matrices) solved against a rhs batch of
+shape `sB` — either may have size-1 dimensions or lack leading dimensions (`torch.cholesky_solve` / `solve_triangular` / `rhs / diag`
+broadcasting, `rhs.expand(*batch_shape, …)` in `KroneckerProductLinearOperator._solve` and `BatchRepeat._cholesky_solve`): member `p` of
+the result (shape `out = broadcast_shapes(sA, sB)`) is `A[mA]⁻¹ · B[mB]` where the members read are in range and are exactly the
+members whose multi-index is C01's `restrict` of the output multi-index (size-1 dimension ↦ 0, missing leading dimension dropped).
+All batch shapes, sizes and column counts. -/
+theorem solve_broadcast_refines {n c : Nat} (sA sB out : List Nat) (A : Nat → Matrix (Fin n) (Fin n) α)
+    (B : Nat → Mat α n c) (p : Nat) (h : broadcastShape sA sB = some out) (hp : p < prodL out) :
+    (Matrix.of (solveBroadcastFlat sA sB out (fun m => ((A m)⁻¹ : Matrix _ _ α)) B p) : Matrix _ _ α)
+        = (A (bcastMember sA out p))⁻¹ * Matrix.of (B (bcastMember sB out p)) ∧
+      bcastMember sA out p < prodL sA ∧ bcastMember sB out p < prodL sB ∧
+      unflat sA (bcastMember sA out p) = restrict sA (unflat out p) ∧
+      unflat sB (bcastMember sB out p) = restrict sB (unflat out p) ∧
+      flatOf out (unflat out p) = p :=
+  ⟨solveBroadcastFlat_refines sA sB out A B p, (bcastMember_spec h hp).1, (bcastMember_spec h hp).2.1,
+    (bcastMember_spec h hp).2.2.1, (bcastMember_spec h hp).2.2.2, flatOf_unflat out p hp⟩
+
+open LinOp.C01 (broadcastShape restrict) in
+/-- **kronSolve_broadcast_refines**: `KroneckerProductLinearOperator._solve` with batched factors (batch shape `sA`) and a broadcasting
+rhs (batch shape `sB`): the rhs is expanded to `out`, the reshape / factor-solve / permute loop runs member by member; member `p` of the
+result is `(A[mA] ⊗ B[mA])⁻¹ · X[mB]` with the same index maps. -/
+theorem kronSolve_broadcast_refines {n1 n2 c : Nat} (sA sB out : List Nat) (A : Nat → Mat α n1 n1) (B : Nat → Mat α n2 n2)
+    (X : Nat → Mat α (n1 * n2) c) (p : Nat) (h : broadcastShape sA sB = some out) (hp : p < prodL out) :
+    (Matrix.of (kronSolveBroadcastFlat sA sB out (fun m => ((Matrix.of (A m))⁻¹ : Matrix (Fin n1) (Fin n1) α))
+        (fun m => ((Matrix.of (B m))⁻¹ : Matrix (Fin n2) (Fin n2) α)) X p) : Matrix _ _ α)
+      = (Matrix.of (kronDense (A (bcastMember sA out p)) (B (bcastMember sA out p))))⁻¹ * Matrix.of (X (bcastMember sB out p)) ∧
+      bcastMember sA out p < prodL sA ∧ bcastMember sB out p < prodL sB :=
+  ⟨kronSolveBroadcastFlat_refines sA sB out A B X p, (bcastMember_spec h hp).1, (bcastMember_spec h hp).2.1⟩
+
+open LinOp.C01 (broadcastShape restrict) in
+/-- **solve_broadcast_left_refines** (`Solve.forward`: `left @ solve`): a left factor with its own batch shape `sL` broadcast against
+the solve result of batch shape `out`: member `p` of the final result (shape `out2 = broadcast_shapes(sL, out)`) is
+`L[mL] · A[mA]⁻¹ · B[mB]`, the operator / rhs members being read through the composition of the two index maps; all members in range. -/
+theorem solve_broadcast_left_refines {n c o : Nat} (sA sB sL out out2 : List Nat) (A : Nat → Matrix (Fin n) (Fin n) α)
+    (B : Nat → Mat α n c) (L : Nat → Mat α o n) (p : Nat) (h : broadcastShape sA sB = some out)
+    (h2 : broadcastShape sL out = some out2) (hp : p < prodL out2) :
+    (Matrix.of (leftBroadcastFlat sL out out2 L (solveBroadcastFlat sA sB out (fun m => ((A m)⁻¹ : Matrix _ _ α)) B) p) : Matrix _ _ α)
+        = Matrix.of (L (bcastMember sL out2 p)) *
+          ((A (bcastMember sA out (bcastMember out out2 p)))⁻¹ * Matrix.of (B (bcastMember sB out (bcastMember out out2 p)))) ∧
+      bcastMember sL out2 p < prodL sL ∧ bcastMember out out2 p < prodL out ∧
+      bcastMember sA out (bcastMember out out2 p) < prodL sA ∧ bcastMember sB out (bcastMember out out2 p) < prodL sB := by
+  have hq := (bcastMember_spec h2 hp).2.1
+  refine ⟨?_, (bcastMember_spec h2 hp).1, hq, (bcastMember_spec h hq).1, (bcastMember_spec h hq).2.1⟩
+  rw [← solveBroadcastFlat_refines]
+  ext i k
+  simp only [leftBroadcastFlat, Matrix.of_apply, Mat.mul, tab_eq, sumFin_eq_sum, Matrix.mul_apply]
+
+/-- the hypotheses are satisfiable by a non-trivial instance: operator batch `(2,1)`, rhs batch `(3,)` → output `(2,3)`; output member 4
+= multi-index `(1,1)` reads operator member 1 and rhs member 1; a left factor of batch `(2,1,1)` gives output `(2,2,3)`. -/
+example : LinOp.C01.broadcastShape [2, 1] [3] = some [2, 3] ∧ 4 < prodL [2, 3] ∧ unflat [2, 3] 4 = [1, 1] ∧
+    bcastMember [2, 1] [2, 3] 4 = 1 ∧ bcastMember [3] [2, 3] 4 = 1 ∧ bcastMember [3] [2, 3] 2 = 2 ∧
+    LinOp.C01.broadcastShape [2, 1, 1] [2, 3] = some [2, 2, 3] ∧ bcastMember [2, 3] [2, 2, 3] 11 = 5 ∧
+    bcastMember [2, 1, 1] [2, 2, 3] 11 = 1 := by decide
 
 /-- hypotheses are satisfiable: every diagonal matrix has the eigen-system `(1, diag)`, so `Runs .eigConst …` etc. are inhabited
 for all factor sizes; `Runs` itself is inhabited for a 2×2 diagonal solve. -/
